@@ -72,7 +72,8 @@ func walkTLV(b []byte, base int, out *[]tlvSite, depth int) {
 		*out = append(*out, tlvSite{base + tagOff, base + tagOff + 1, lenSize, l})
 		if b[off]&0x20 != 0 { // constructed
 			walkTLV(b[valOff:valOff+l], base+valOff, out, depth+1)
-		} else if b[off] == 0x04 && l > 2 && b[valOff] == 0x30 { // extension values wrap DER
+		} else if b[off] == 0x04 && l >= 2 && (b[valOff] == 0x30 || (b[valOff+1] < 0x80 && 2+int(b[valOff+1]) == l)) {
+			// extension values wrap DER: a SEQUENCE (authorityKeyIdentifier) or one primitive element (cRLNumber's INTEGER)
 			walkTLV(b[valOff:valOff+l], base+valOff, out, depth+1)
 		}
 		off = valOff + l
